@@ -22,12 +22,14 @@ def main():
     ap.add_argument("--tier", default="quick")
     ap.add_argument("--update", action="store_true", help="record detected_by in meta.json")
     ap.add_argument("--dir", default=os.path.join(VERIF, "seeded"))
+    ap.add_argument("--jobs", type=int, default=3)
     a = ap.parse_args()
     seeds = a.seeds or sorted(d for d in os.listdir(a.dir) if os.path.exists(os.path.join(a.dir, d, "patch.diff")))
     props = a.props.split(",") if a.props else sorted(
         f[:-3] for f in os.listdir(os.path.join(VERIF, "rules")) if f.startswith("C") and f.endswith(".py"))
     summary = {}
-    for s in seeds:
+
+    def do(s):
         sd = os.path.join(a.dir, s)
         tmp = tempfile.mkdtemp(prefix="seedchk.", dir="/tmp")
         try:
@@ -39,7 +41,7 @@ def main():
             if r.returncode != 0:
                 print("%s: patch does not apply: %s" % (s, r.stdout[-300:]))
                 summary[s] = None
-                continue
+                return
             hits = []
             for p in props:
                 r = subprocess.run([os.path.join(VERIF, "check"), p, "--tier", a.tier, "--repo", tmp],
@@ -51,10 +53,11 @@ def main():
                     lines = [l for l in r.stdout.splitlines() if "ANALYSIS-BROKEN" in l]
                     hits.append((p + "(broken)", lines))
             summary[s] = hits
-            print("%-10s %s" % (s, ", ".join(h[0] for h in hits) or "-- MISSED --"))
+            out = ["%-10s %s" % (s, ", ".join(h[0] for h in hits) or "-- MISSED --")]
             for p, lines in hits:
                 for l in lines[:3]:
-                    print("      %s" % l[:260])
+                    out.append("      %s" % l[:260])
+            print("\n".join(out), flush=True)
             if a.update:
                 mp = os.path.join(sd, "meta.json")
                 if os.path.exists(mp):
@@ -66,6 +69,9 @@ def main():
             shutil.rmtree(tmp, ignore_errors=True)
             import hashlib
             shutil.rmtree(os.path.join(VERIF, "build", "facts", hashlib.sha256(tmp.encode()).hexdigest()[:8]), ignore_errors=True)
+    from concurrent.futures import ThreadPoolExecutor
+    with ThreadPoolExecutor(a.jobs) as ex:
+        list(ex.map(do, seeds))
     return 0
 
 
